@@ -577,7 +577,7 @@ func c04Ancestry(revs []c04Rev, id string) []string {
 
 func TestVerifC04(t *testing.T) {
 	rec := vNewRecorder(t, "C04", "C04.C04_Corr")
-	rec.shardSize = 300
+	rec.shardSize = 320
 	defer rec.Finish()
 	rnd := vNewRand(vSeed())
 	ctx := base.TestCtx(t)
@@ -1223,6 +1223,9 @@ func TestVerifC04(t *testing.T) {
 		db.Close(dctx)
 	}
 	runDb(false, []uint32{50, 50, 3})
+
+	// =========== (6)-(10) deepening round: history queries, pruning twice / then adding, codec with all fields at byte level ===========
+	c04Deep(t, rec, m)
 
 	// =========== (5) winning body under CAS retries ===========
 	c04RaceBodies(t, rec, rnd)
